@@ -5,9 +5,9 @@ import (
 	"os"
 	"runtime"
 	"strconv"
-	"time"
 	"testing"
 	"testing/cryptotest"
+	"time"
 
 	"github.com/IrineSistiana/mosproxy/verifsim/gen"
 	"github.com/IrineSistiana/mosproxy/verifsim/plan"
